@@ -72,6 +72,7 @@ var c20Binds = []struct{ key, action string }{
 	{"alt-w", "track-current"}, {"alt-x", "change-header(h)"},
 	// one key: the cursor leaves the line, something restarts the preview there, the cursor comes back - the
 	// renderer only ever sees the line it knew
+	{"alt-2", "execute-silent(EXQ)"},
 	{"alt-y", "down+refresh-preview+up"}, {"alt-z", "up+change-preview(PV3 " + c20Template + ")+down"}, {"alt-1", "down+toggle-preview+toggle-preview+up"},
 }
 
@@ -116,8 +117,12 @@ func genC20Plan(r *zsim.Rng) *sysPlan {
 		case 3: // endless output after a start
 			ps.Text = "head\n"
 			ps.Endless = true
-		case 4: // silent forever
+		case 4: // silent forever - or silent for most of a second, then gone
 			ps.Endless = true
+			if r.Bool() {
+				ps.Endless = false
+				ps.DelaysMs = []int{[]int{600, 800, 1500}[r.Intn(3)]}
+			}
 		case 5:
 			ps.StartErr = true
 		case 6:
@@ -214,6 +219,10 @@ func runC20(c *runCtx) {
 	c.plan = plan
 	r := newSysRun(c, plan)
 	r.behave = func(r *sysRun, p *simos.Proc) (simos.Script, bool) {
+		if strings.HasPrefix(p.Command, "EXQ") {
+			// a foreground command that keeps the renderer from drawing for a second or two and prints nothing
+			return simos.Script{FinalMs: 900 + 700*(p.Pid%3)}, true
+		}
 		if !isPreviewProc(p) {
 			return simos.Script{}, false
 		}
@@ -408,6 +417,26 @@ func c20Settle(r *sysRun, busy bool) {
 			c.violate("c20.pane", "preview pane holds %q, the command that ran last (%q) has emitted %q", clip([]byte(strings.Join(got, ""))), last.Command, clip([]byte(strings.Join(want, ""))))
 		}
 	}
+	// a command that has ended without printing anything leaves nothing behind that says it is still loading
+	if !busy && !last.Alive && last.Emitted.Len() == 0 && last.ExitCode != 127 && t.pwindow != nil && len(c.viol) == 0 {
+		pw := t.pwindow
+		scr := r.tty.Screen()
+		for i := 0; i < pw.Height(); i++ {
+			row := pw.Top() + i
+			if row < 0 || row >= len(scr) {
+				continue
+			}
+			rs := []rune(scr[row])
+			for len(rs) < pw.Left()+pw.Width() {
+				rs = append(rs, ' ')
+			}
+			if strings.Contains(string(rs[pw.Left():pw.Left()+pw.Width()]), "Loading ..") {
+				c.violate("c20.screen", "the command that ran last (%q) has ended without printing anything, the preview window still says %q\n%s", last.Command, strings.TrimSpace(string(rs[pw.Left():pw.Left()+pw.Width()])), strings.Join(scr, "\n"))
+				return
+			}
+		}
+		c.count("probe.silent_command_checked", 1)
+	}
 	// … and what the pane holds is what is on the screen (simple output: short ASCII lines that fit, no scrolling)
 	if !busy && !last.Alive && last.Consumed == last.Emitted.Len() && t.pwindow != nil && len(c.viol) == 0 {
 		pw := t.pwindow
@@ -428,8 +457,10 @@ func c20Settle(r *sysRun, busy bool) {
 		}
 		if simple {
 			want = want[off:]
-			if len(want) > height {
-				want = want[:height]
+			if len(want) >= height {
+				// more output than fits: the last row of the window is not compared (whether fzf fills it is its
+				// own business - it leaves it blank)
+				want = want[:maxInt(height-1, 0)]
 			}
 		}
 		for _, l := range want {
